@@ -29,6 +29,9 @@ pub trait SideFunctionality {
     fn best_order_idx(&self) -> Option<OrderId>;
     /// Get the volume and orders at a price level
     fn vol_and_orders_at_price(&self, price: Price) -> (Vol, OrderCount);
+    /// Get the time component of the key for an order queued
+    /// at time `t`, unique and behind all orders at the price-key
+    fn next_key_time(&self, price: Price, t: Nanos) -> Nanos;
 }
 
 /// Order book side data structure
@@ -141,6 +144,19 @@ impl OrderBookSide {
             None => (0, 0),
         }
     }
+
+    /// Time component of the key for an order queued at time `t`
+    ///
+    /// Normally this is just `t`, but if orders are already
+    /// queued at the same price with the same (or a later) time
+    /// the next free time is used, so the key does not replace
+    /// an existing order and time priority is maintained.
+    fn next_key_time(&self, price: Price, t: Nanos) -> Nanos {
+        match self.orders.range((price, 0)..=(price, Nanos::MAX)).next_back() {
+            Some(((_, last), _)) if *last >= t => last + 1,
+            _ => t,
+        }
+    }
 }
 
 /// Bid-side specific functionality
@@ -219,6 +235,10 @@ impl SideFunctionality for BidSide {
         let price = Price::MAX - price;
         self.0.vol_and_orders_at_price(price)
     }
+
+    fn next_key_time(&self, price: Price, t: Nanos) -> Nanos {
+        self.0.next_key_time(price, t)
+    }
 }
 
 impl SideFunctionality for AskSide {
@@ -287,6 +307,10 @@ impl SideFunctionality for AskSide {
 
     fn vol_and_orders_at_price(&self, price: Price) -> (Vol, OrderCount) {
         self.0.vol_and_orders_at_price(price)
+    }
+
+    fn next_key_time(&self, price: Price, t: Nanos) -> Nanos {
+        self.0.next_key_time(price, t)
     }
 }
 
